@@ -160,7 +160,8 @@ fn real_main(cli: &Cli) -> Result<ExitCode, Error> {
 
                 last = run(runner, &filter, vars.clone(), inputs, |output| {
                     write(tmp.as_file_mut(), writer, &output)
-                })?;
+                })?
+                .or(last);
 
                 // replace the input file with the temporary file
                 std::mem::drop(bytes);
@@ -172,7 +173,8 @@ fn real_main(cli: &Cli) -> Result<ExitCode, Error> {
                     run(runner, &filter, vars.clone(), inputs, |v| {
                         write(out, writer, &v)
                     })
-                })?;
+                })?
+                .or(last);
             }
         }
         last
